@@ -214,7 +214,11 @@ func ExecuteSubscription(p ExecuteParams) chan *Result {
 					if !more {
 						return
 					}
-					resultChannel <- mapSourceToResponse(res)
+					select {
+					case <-p.Context.Done():
+						return
+					case resultChannel <- mapSourceToResponse(res):
+					}
 				}
 			}
 		default:
